@@ -46,10 +46,11 @@ type c07Case struct {
 	Pings   []time.Duration // v3: gaps between client pings, relative to the previous ping (or open)
 	Extras  []hbExtra
 	Rounds  int
+	Chunk   int // polling: the client's data requests (its pongs / pings) carry no declared length
 }
 
 func (c c07Case) String() string {
-	return fmt.Sprintf("{I=%v T=%v %s rev%d reacts=%v v3gaps=%v extras=%v rounds=%d}", c.I, c.T, c.Carrier, c.Rev, c.Reacts, c.Pings, c.Extras, c.Rounds)
+	return fmt.Sprintf("{I=%v T=%v %s rev%d reacts=%v v3gaps=%v extras=%v rounds=%d chunk=%d}", c.I, c.T, c.Carrier, c.Rev, c.Reacts, c.Pings, c.Extras, c.Rounds, c.Chunk)
 }
 
 var hbGrid = []time.Duration{time.Millisecond, 2 * time.Millisecond, 3 * time.Millisecond, 10 * time.Millisecond, 100 * time.Millisecond, 250 * time.Millisecond, time.Second, 20 * time.Second, 25 * time.Second, 60 * time.Second}
@@ -69,6 +70,9 @@ func genC07(rt *rapid.T) c07Case {
 		c.Rev = 3
 	}
 	c.Rounds = rapid.IntRange(1, 5).Draw(rt, "rounds")
+	if c.Carrier == "polling" && rapid.IntRange(0, 2).Draw(rt, "chunked") == 0 {
+		c.Chunk = rapid.SampledFrom([]int{1, 2, 4096}).Draw(rt, "chunk")
+	}
 	if c.Rev == 4 {
 		n := rapid.IntRange(1, 4).Draw(rt, "nReacts")
 		for i := 0; i < n; i++ {
@@ -227,7 +231,7 @@ func runC07(c c07Case) (fail string, stats map[string]bool) {
 	if c.Rev == 3 {
 		eio = "3"
 	}
-	s, why := doHandshake(w, c06HS{Carrier: c.Carrier, EIO: eio})
+	s, why := doHandshake(w, c06HS{Carrier: c.Carrier, EIO: eio, Chunk: c.Chunk})
 	if s == nil {
 		return "harness: handshake failed: " + why, stats
 	}
@@ -453,7 +457,13 @@ func runC07(c c07Case) (fail string, stats map[string]bool) {
 				if c.Rev == 4 && len(c.Extras)%2 == 0 {
 					to = "webtransport"
 				}
-				wc, tc, err := Upgrade(w, s.pc, to)
+				candRev := 0
+				if to == "websocket" && len(c.Extras)%3 != 0 {
+					// the candidate announces the other revision for itself; the heartbeat mode is the session's
+					candRev = 7 - c.Rev
+					stats["upgrade-candidate-announcing-the-other-revision"] = true
+				}
+				wc, tc, err := UpgradeAs(w, s.pc, to, candRev)
 				if err != nil {
 					return fmt.Sprintf("@%v conformant upgrade to %s failed: %v", now(), to, err), stats
 				}
@@ -581,6 +591,9 @@ func TestC07Heartbeat(t *testing.T) {
 		}
 		sort.Strings(cl)
 		cl = append(cl, "carrier."+c.Carrier, fmt.Sprintf("rev%d", c.Rev))
+		if c.Chunk > 0 {
+			cl = append(cl, "heartbeats-in-data-requests-without-declared-length", "upgrade-candidate-announcing-the-other-revision")
+		}
 		nt := (stats[">=2-rounds"] && stats["within-1ms-of-deadline"]) || stats["wrong-direction"] || stats["unsolicited-pong"] || stats["duplicate-pong"] || stats["pong-at-deadline-race"]
 		col.Case(c.String(), nt, map[string]any{"case": c.String(), "classes": strings.Join(cl, " ")}, cl...)
 		res.rethrow()
@@ -591,7 +604,7 @@ func TestC07Heartbeat(t *testing.T) {
 			rt.Fatalf("%v: %s", c, clipStr(res.Leak, 1500))
 		}
 	})
-	col.RequireClasses(t, "peer-vanished", "vanished-peer-timed-out", "timeout", "stayed-open", "within-1ms-of-deadline", "pong-at-deadline-race", "wrong-direction", "unsolicited-pong", "duplicate-pong", "v3-ping", "v3-ping-after-upgrade", "upgraded-to-websocket", "upgraded-to-webtransport", "other-traffic", "carrier.polling", "carrier.websocket", "carrier.webtransport")
+	col.RequireClasses(t, "peer-vanished", "vanished-peer-timed-out", "timeout", "stayed-open", "within-1ms-of-deadline", "pong-at-deadline-race", "wrong-direction", "unsolicited-pong", "duplicate-pong", "v3-ping", "v3-ping-after-upgrade", "upgraded-to-websocket", "upgraded-to-webtransport", "other-traffic", "carrier.polling", "carrier.websocket", "carrier.webtransport", "heartbeats-in-data-requests-without-declared-length")
 }
 
 const sigVanishedPeer = "closed-session-keeps-connection-and-writer-of-a-peer-that-stopped-reading"
